@@ -10,7 +10,7 @@ One JSON object per input line, one JSON object per output line.
      U        = {"pop":[n,D]} | {"get":[n,D]} | {"super":{"frm":null|i,"k":k,"given":[n,...]}}
               | {"call":{"t":["entry",i]|["self",j]|["cls"],"k":k,"given":[n,...]}}
   -> {"results":[{"out":"ok"|"crash"|"nofuel","params":[{"name","ty","dflt":null|{"tok":s}|{"cond":s},"kind","otuple"},...],
-                  "accepts":[b,...]},...],"wf":b,"acyclic":b,"bound":n}
+                  "accepts":[b,...]},...],"wf":b,"acyclic":b,"noclash":b,"bound":n}
      wf = the decidable hypothesis `WfProg` of theorem C13_exact holds for the program
 -/
 import Lean.Data.Json
@@ -163,6 +163,7 @@ def step (j : Json) : Json :=
     ("results", .arr ((jArr j "queries").map (answer P)).toArray),
     ("wf", .bool (WfProg P)),
     ("acyclic", .bool P.acyclic),
+    ("noclash", .bool (noPopClash P)),
     ("bound", .num (JsonNumber.fromNat P.bound))]
 
 partial def loop (h : IO.FS.Stream) (out : IO.FS.Stream) : IO Unit := do
